@@ -126,6 +126,24 @@ class Collector:
                     skipped=self.skipped)
 
 
+def guarded_check(prop, case):
+    """prop.check(case); an exception that escapes the check and was raised *inside droop* (innermost frame in the package)
+    is reported as a violation of the property under test - the code under test failed where the harness did not expect
+    it to - while an exception raised by harness code stays a harness error (exit 2)"""
+    try:
+        return prop.check(case)
+    except Exception as e:      # pylint: disable=broad-except
+        from .drive import exc_sig
+        tb = traceback.extract_tb(e.__traceback__)
+        from . import REPO
+        root = os.path.join(os.path.realpath(REPO), 'droop')
+        if tb and os.path.realpath(tb[-1].filename).startswith(root):
+            res = Result()
+            res.fail('droop-raises', 'droop-raises|%s' % exc_sig(e), 'droop raised %r where the check expects it to succeed' % (e,))
+            return res
+        raise
+
+
 def shard_worker(args):
     pid, tier, seed, shard, n = args
     try:
@@ -143,7 +161,7 @@ def shard_worker(args):
                   phases=[Phase.generate])
         @given(strat)
         def search(case):
-            col.add(case, prop.check(case))
+            col.add(case, guarded_check(prop, case))
 
         search()
         return col.summary()
@@ -157,7 +175,7 @@ def extra_worker(args):
         prop = load_prop(pid)
         col = Collector()
         for case in prop.extra_cases(tier, seed, chunk):
-            col.add(case, prop.check(case))
+            col.add(case, guarded_check(prop, case))
         return col.summary()
     except BaseException:      # pylint: disable=broad-except
         return dict(harness_error=traceback.format_exc())
